@@ -149,7 +149,7 @@ def main():
             seen_kinds.add(key)
             # shrink the session that shows it and write the replay
             ops = [x["op"] for x in sr]
-            small = vcore.shrink(cfg, ops, kind, known, target_op=r["op"]) if len(ops) > 1 else ops
+            small = vcore.shrink(cfg, ops, kind, known, target_op=r["op"], target_impl=r["I"]) if len(ops) > 1 else ops
             try:
                 small_res = vcore.execute(cfg, small, tag="final")
             except BuildError:
